@@ -319,7 +319,7 @@ def step (mode : Mode) (st : St) (pre post : List String) : St × Verdict :=
             some ("same-bytes-executed-twice", s!"raw={ln.raw}")
           else if mode == .c16 && (stateMoved || !implRejected) &&
               (ln.content != "-" && st.passedContent.any fun p => p.1 = ln.content && p.2 != ln.raw) then
-            some (s!"reencode-{ln.variant}-replays", s!"raw={ln.raw} content={ln.content}")
+            some (s!"reencode-replays-{ln.variant}", s!"raw={ln.raw} content={ln.content}")
           else none
         let st'' : St :=
           if probeOnly then st'
